@@ -545,3 +545,10 @@ PROPS['C01']['obligations'] += [
 ]
 PROPS['C01']['assumptions'] = PROPS['C01'].get('assumptions', []) + [
     'sym_* obligations: protobuf runtime = env/symproto (validated by the setup self-test and per path on upb)']
+
+
+PROPS['C02']['obligations'].append(
+    O('C02.sym_any_n', 'harness.c02_symbolic', 'suggest_any_n', 450, 900,
+      'SuggestTrials for EVERY suggestion_count N >= 1 (symbolic, on symproto): exactly N trials or all that exist/were '
+      'delivered, surplus queued as REQUESTED, nothing dropped, Pythia asked for exactly the missing amount',
+      'N unbounded; own ACTIVE 0..2, REQUESTED 0..2, delivery 0..3', env=_SYM))
